@@ -14,7 +14,10 @@ from vlib import hx, hxl
 
 ID = 'C19'
 COMPONENTS = ['format']
-THEOREMS = ['C19_pad_reaches_width_refuted', 'C19_prec_limit_refuted']
+THEOREMS = ['C19_format_parse_total', 'C19_format_no_panic', 'C19_arg_count_errors', 'C19_pad_reaches_width',
+            'C19_field_width_ok', 'C19_decorate_min_width', 'C19_render_int_min_width', 'C19_radix_digits_value',
+            'C19_render_int_digits', 'C19_decimal_exact_below_2p53', 'C19_fixed_digits_correct', 'C19_fixed_is_rendered',
+            'C19_g_shape', 'C19_pad_bytes_refuted', 'C19_fmt_prec_limit', 'C19_nonvacuous']
 ALLOWED_AXIOMS = set()
 TRANSLATORS = []
 
